@@ -364,6 +364,22 @@ def handle_reset(config: kconfiglib.Kconfig, error: List[str], to_reset: List[st
             error.append(f"Failed to reset menu {menu.id} to default values")
 
 
+def _out_of_active_range(sym, value: str) -> bool:
+    """
+    Return True if the int/hex/float symbol has an active range and 'value' (in sdkconfig notation) lies outside of it.
+    """
+    for low_expr, high_expr, cond in sym.ranges:
+        if kconfiglib.expr_value(cond):
+            try:
+                if sym.orig_type == kconfiglib.FLOAT:
+                    return not float(low_expr.str_value) <= float(value) <= float(high_expr.str_value)
+                base = kconfiglib._TYPE_TO_BASE[sym.orig_type]
+                return not int(low_expr.str_value, base) <= int(value, base) <= int(high_expr.str_value, base)
+            except ValueError:
+                return False
+    return False
+
+
 def handle_set(config, error, to_set):
     missing = [k for k in to_set if k not in config.syms]
     if missing:
@@ -394,17 +410,24 @@ def handle_set(config, error, to_set):
                         raise TypeError
                     if not isinstance(val, int):
                         val = int(val, 16)  # input can be a decimal JSON value or a string of hex digits
-                    sym.set_value(hex(val))
+                    if _out_of_active_range(sym, hex(val)):
+                        error.append(f"Value {hex(val)} is outside the active range of {sym.name}")
+                    else:
+                        sym.set_value(hex(val))
                 except (ValueError, TypeError):  # TypeError: e.g. a JSON float, null, list
                     error.append(f"Hex symbol {sym.name} can accept a decimal integer or a string of hex digits, only")
             elif sym.type == kconfiglib.FLOAT:
                 if not kconfiglib.is_float(str(val)):
                     error.append(f"Float symbol {sym.name} requires a valid float value")
+                elif _out_of_active_range(sym, str(val)):
+                    error.append(f"Value {val} is outside the active range of {sym.name}")
                 else:
                     # Accept float, int, or string representation of a float
                     sym.set_value(str(val))
             elif sym.type == kconfiglib.STRING and (isinstance(val, bool) or not isinstance(val, (str, int, float))):
                 error.append(f"String symbol {sym.name} requires a string value")
+            elif sym.type == kconfiglib.INT and _out_of_active_range(sym, str(val)):
+                error.append(f"Value {val} is outside the active range of {sym.name}")
             else:
                 sym.set_value(str(val))
             log.print(f"Set {sym.name}", file=sys.stderr)
